@@ -9,6 +9,7 @@ import (
 	"unicode/utf8"
 
 	"google.golang.org/grpc/codes"
+	"google.golang.org/grpc/metadata"
 	"google.golang.org/grpc/status"
 	"google.golang.org/protobuf/encoding/protojson"
 	"google.golang.org/protobuf/proto"
@@ -34,6 +35,7 @@ type c05Case struct {
 	Message string `json:"message"`
 	Details int    `json:"details"`
 	After   int    `json:"after_replies"`
+	SendHdr bool   `json:"handler_calls_SendHeader_first,omitempty"` // the handler sends its headers, then fails
 }
 
 var c05Codes = []uint32{1, 2, 3, 4, 5, 6, 7, 8, 9, 10, 11, 12, 13, 14, 15, 16, 17, 18, 100, 1 << 31, 1<<32 - 1}
@@ -122,7 +124,12 @@ func (e *c05Env) exec(tc *c05Case) (oracle, note string) {
 		// reads exactly the one message that is sent.
 		recvN = 1
 	}
-	e.impl.reset(hScript{RecvN: recvN, Replies: replies, Err: herr, ErrAfter: tc.After})
+	hs := hScript{RecvN: recvN, Replies: replies, Err: herr, ErrAfter: tc.After}
+	if tc.SendHdr {
+		hs.SendHdr = metadata.Pairs("x-early", "1")
+		hs.SendHdrNow = true
+	}
+	e.impl.reset(hs)
 	reqMsg := e.t.newReq("q", nil, 1)
 	pb, _ := proto.Marshal(reqMsg)
 	js, _ := protojson.Marshal(reqMsg)
@@ -171,6 +178,29 @@ func (e *c05Env) exec(tc *c05Case) (oracle, note string) {
 	}
 	if e.impl.log.Calls != 1 {
 		return "handler-not-invoked", fmt.Sprintf("calls=%d http=%d body=%s", e.impl.log.Calls, res.HTTPCode, truncS(string(res.Body), 120))
+	}
+	if !utf8.ValidString(tc.Message) {
+		// "No status value makes the server fail to produce a response": a message that is not
+		// valid UTF-8 cannot be carried faithfully (fidelity is not demanded), but a response
+		// with an error status must still come out
+		switch {
+		case strings.HasPrefix(tc.Proto, "http") || strings.HasPrefix(tc.Proto, "twirp"):
+			if res.HTTPCode < 400 && tc.After == 0 {
+				return "no-error-response", fmt.Sprintf("status with an invalid UTF-8 message: HTTP %d", res.HTTPCode)
+			}
+		case tc.Proto == "ws":
+			if res.WSClose == nil {
+				return "no-error-response", "status with an invalid UTF-8 message: no close frame"
+			}
+		default:
+			if res.ParseErr != "" {
+				return "response-malformed", res.ParseErr
+			}
+			if res.Status == nil || res.Status.Code == 0 {
+				return "no-error-response", fmt.Sprintf("status with an invalid UTF-8 message: grpc status %+v", res.Status)
+			}
+		}
+		return "", "invalid-utf8-message:error-response-produced"
 	}
 	inRange := tc.Code <= 16
 	wantDetails := func() [][]byte {
@@ -345,6 +375,21 @@ func c05Cases(thorough bool) []c05Case {
 						}
 					}
 				}
+				// the handler sends its headers first (grpc.SendHeader), then fails: the status must
+				// still be the error's, on every protocol
+				if after == 0 && p != "ws" {
+					for _, code := range c05Codes {
+						for _, m := range few[:3] {
+							out = append(out, c05Case{Proto: p, Shape: sh, Code: code, Message: m, Details: int(code) % 3, After: 0, SendHdr: true})
+						}
+					}
+				}
+				// status messages that are not valid UTF-8, with and without details
+				for _, m := range []string{"bad \xff utf8", "\xc3", "ok then \xe2\x82"} {
+					for d := 0; d <= 2; d++ {
+						out = append(out, c05Case{Proto: p, Shape: sh, Code: 13, Message: m, Details: d, After: after})
+					}
+				}
 				// every message × two codes (one shape per protocol unless thorough)
 				if sh != "unary" && sh != "ss" && sh != "bidi" && !thorough {
 					continue
@@ -365,7 +410,7 @@ func c05Cases(thorough bool) []c05Case {
 
 func runC05(c *Ctx) {
 	r := c.Run
-	r.Rule("protocol{HTTP json/proto/implicit route, Twirp json/proto, gRPC (+proto,+json), gRPC-web (+proto,+json), gRPC-web-text (+proto), gRPC / gRPC-web / gRPC-web-text with gzip message compression negotiated, WebSocket} × shape{unary, client-, server-, bidi-streaming} × error position{before any reply, after 1, after 2} × code{1..16,17,18,100,2^31,2^32-1} × message{all strings of length <= 3 over {a,%,space,\\n,é} (thorough: length <= 4 over those plus DEL, NUL, a 4-byte rune, '+', '4'), %41, CJK, DEL, control chars, 200×x, lengths 119..126 with and without a multi-byte rune on the close-frame boundary} × details{0,1,2}; distinct = (protocol, shape, position, code class, message class) combinations that produced a decodable status")
+	r.Rule("protocol{HTTP json/proto/implicit route, Twirp json/proto, gRPC (+proto,+json), gRPC-web (+proto,+json), gRPC-web-text (+proto), gRPC / gRPC-web / gRPC-web-text with gzip message compression negotiated, WebSocket} × shape{unary, client-, server-, bidi-streaming} × error position{before any reply, before any reply but after grpc.SendHeader, after 1, after 2} × code{1..16,17,18,100,2^31,2^32-1} × message{all strings of length <= 3 over {a,%,space,\\n,é} (thorough: length <= 4 over those plus DEL, NUL, a 4-byte rune, '+', '4'), %41, CJK, DEL, control chars, 200×x, lengths 119..126 with and without a multi-byte rune on the close-frame boundary} × details{0,1,2}; plus three messages that are not valid UTF-8 (only 'an error response is produced' is demanded); distinct = (protocol, shape, position, code class, message class) combinations that produced a decodable status")
 	r.Assume("CANCELLED may map to 408 or 499; Twirp HTTP statuses and Twirp names of out-of-range codes are not demanded; the WebSocket close code only has to be a sendable, non-1000 code; error framing after HTTP stream messages is not demanded", "leading/trailing spaces of the message are not representable in a gRPC-web trailer frame and are not compared there")
 	cases := c05Cases(c.Thorough())
 	envs := make([]*c05Env, explore.Workers)
@@ -378,7 +423,7 @@ func runC05(c *Ctx) {
 		r.Eval(1)
 		if oracle != "" {
 			r.Outcome("FAIL:" + oracle)
-			r.Violation(report.Violation{Oracle: oracle, Key: fmt.Sprintf("%s proto=%s shape=%s after=%d code=%d details=%d msg=%q", oracle, tc.Proto, tc.Shape, tc.After, tc.Code, tc.Details, truncS(tc.Message, 40)), Case: *tc, Note: note})
+			r.Violation(report.Violation{Oracle: oracle, Key: fmt.Sprintf("%s proto=%s shape=%s after=%d sendheader=%v code=%d details=%d msg=%q", oracle, tc.Proto, tc.Shape, tc.After, tc.SendHdr, tc.Code, tc.Details, truncS(tc.Message, 40)), Case: *tc, Note: note})
 		} else {
 			r.Outcome("status-delivered:" + strings.SplitN(tc.Proto, "+", 2)[0])
 			cls := "in-range"
